@@ -660,6 +660,12 @@ def gen_cases(tier: str, seed: int) -> List[Dict]:
         for k in (2, 3):
             if e * k <= 60000 and (not quick or rng.random() < 0.6):
                 add("pow", P("a", ("q0",), [[e], [0]] if e * k < 400 else [[e]]), k=k)
+    # exponents whose key character means something to text processing: white space of every kind (U+0085, U+00A0, U+1680, U+2000,
+    # U+2028/9, U+202F, U+205F, U+3000), the byte-order mark, backslash and braces -- through the text format and pickle
+    for cp in (0x85, 0xA0, 0x1680, 0x2000, 0x2028, 0x2029, 0x202F, 0x205F, 0x3000, 0xFEFF, ord(chr(92)), ord("{"), ord("}"), 0x7F, 0xAD):
+        e = cp - off0
+        add("text", P("a", ("q0", "q2"), [[e, 1], [0, e]], (2,)))
+        add("pickle", P("a", ("q0", "q2"), [[e, 1], [0, e]]))
     for e in (-1, -60, 0xD800 - off0, 0xDFFF - off0, 0x110000 - off0, 2 ** 31, 2 ** 32, 2 ** 32 + 5, 2 ** 32 - 1):
         add("reject", {k: v for k, v in P("a", ("q0",), [[1]]).items() if k != "pre"}, e=e)  # (the body reads the operand's only stored coefficient)
     add("reject-chain", {k: v for k, v in P("a", ("q0",), [[1]]).items() if k != "pre"}, native_only=True, pairs=[(50000, 85900), (65536, 65536), (65536, 65537), (40000, 107375), (300000, 14317), (1000000, 4295), (2 ** 20, 2 ** 12)])
